@@ -180,10 +180,10 @@ end Pna
 
 namespace Pna
 
-/-- FHED round trip.  Hypotheses are exactly what the constructors establish: version bytes
-    equal (the encoder writes `minor` twice), valid enum codes, a name that is valid UTF-8 and
-    already in sanitised form. -/
-theorem decFHED_encFHED (h : EntryHeader) (hv : h.major = h.minor) (h2 : h.minor < 256)
+/-- FHED round trip.  Hypotheses: version bytes fit a byte, valid enum codes, a name that is valid UTF-8 and
+    already in sanitised form.  (Before the `fix:` that made the encoder write `major`, it wrote `minor` twice and
+    this needed `major = minor`.) -/
+theorem decFHED_encFHED (h : EntryHeader) (h1 : h.major < 256) (h2 : h.minor < 256)
     (hk : validKind h.kind = true) (hc : validCompression h.compression = true)
     (he : validEncryption h.encryption = true) (hm : validCipherMode h.cipherMode = true)
     (hu : validUtf8 h.name = true) (hs : sanitize h.name = h.name) :
@@ -192,7 +192,7 @@ theorem decFHED_encFHED (h : EntryHeader) (hv : h.major = h.minor) (h2 : h.minor
   have c256 : h.compression < 256 := by simp [validCompression] at hc; omega
   have e256 : h.encryption < 256 := by simp [validEncryption] at he; omega
   have m256 : h.cipherMode < 256 := by simp [validCipherMode] at hm; omega
-  simp only [encFHED, List.cons_append, List.nil_append, decFHED, byteOf_toNat _ h2, byteOf_toNat _ k256,
+  simp only [encFHED, List.cons_append, List.nil_append, decFHED, byteOf_toNat _ h1, byteOf_toNat _ h2, byteOf_toNat _ k256,
     byteOf_toNat _ c256, byteOf_toNat _ e256, byteOf_toNat _ m256, hk, hc, he, hm, hu, hs]
   cases h
   simp_all
